@@ -113,6 +113,12 @@ class Units:
                         ty = (opplace(a) or {}).get('ty') or (a.get('const') or {}).get('ty')
                         if ty in INT_TYPES:
                             ch |= self._add(self.param_units, self.param_why, (callee.path, n), self.unit(b, b.expr(a)), t['loc'], fn_key(b.path))
+                elif c and re.search(r'Vec::<.*>::extend$|Extend<.*>>::extend$', c['path']) and len(t['args']) == 2:
+                    # Vec::extend(&mut x.field, repeat(v).take(n)) stores v
+                    recv = strip(b.expr(t['args'][0]))
+                    rep = [x for x in _spine(b.expr(t['args'][1])) if x[0] == 'call' and re.search(r'iter::(sources::repeat::)?repeat$|iter::repeat_n$', x[1]) and x[2]]
+                    if recv[0] == 'field' and len(recv) > 3 and rep:
+                        ch |= self._add(self.field_units, self.field_why, 'elem:' + recv[3], self.unit(b, rep[0][2][0]), t['loc'], fn_key(b.path))
                 elif c and re.search(r'Vec::<.*>::(push|insert)$', c['path']) and t['args']:
                     # element unit of a collection field: Vec::push(&mut x.field, v)
                     recv = strip(b.expr(t['args'][0]))
